@@ -289,6 +289,25 @@ def rc_case(rng, nthreads, nnodes, reps, blen, cushion, release_all, private=Fal
     return {"lines": lines, "noshrink": True}
 
 
+def ud_case(rng):
+    """one shared node, several owners acquiring / releasing it; exactly one of them (re)installs the delete callback
+    before its own last release: the destroying put - whichever thread it is - runs that callback, once"""
+    nt = rng.choice([2, 2, 3, 4])
+    lines = ["nodes 1"]
+    setter = rng.randrange(nt)
+    for t in range(nt):
+        held = rng.choice([1, 1, 2])
+        body = []
+        tail = ["p0"] * held
+        if t == setter:
+            tail.insert(rng.randrange(0, held), "u0")
+        elif rng.chance(0.5):
+            body = ["g0", "p0"]
+        lines.append("t %d 0:%d %d %s / %s" % (t, held, rng.choice([1, 3]) if body else 1, " ".join(body), " ".join(tail)))
+    lines += ["run tsan", "run plain"]
+    return {"lines": lines, "noshrink": True}
+
+
 def seed_case(rng, n, with_unset):
     base = rng.sample(range(1, 2 ** 31 - 1), n)
     cands = []
@@ -330,6 +349,9 @@ def gen(rng, tier):
     for i in range(10 if quick else 60):
         nt = rng.choice([2, 3, 4, 8])
         yield rc_case(rng, nt, nt + rng.choice([0, 1, 3]), rng.choice([20, 100, 400]), rng.choice([3, 5]), 0, release_all=rng.chance(0.6), private=True)
+    # C2: the delete callback re-installed by one owner while others release
+    for i in range(12 if quick else 100):
+        yield ud_case(rng)
     # D: first-hash races
     for i in range(14 if quick else 120):
         yield seed_case(rng, rng.choice([2, 3, 4, 8, 16]), with_unset=rng.chance(0.4))
